@@ -86,6 +86,17 @@ func (d *Dependency) interpolate(properties map[string]string) bool {
 	ok5 := d.Type.interpolate(properties)
 	ok6 := d.Classifier.interpolate(properties)
 	ok7 := d.Optional.interpolate(properties)
+	if len(d.Exclusions) > 0 {
+		// The exclusions may be shared with the project they were
+		// inherited from: interpolate a copy.
+		exclusions := make([]Exclusion, 0, len(d.Exclusions))
+		for _, ex := range d.Exclusions {
+			ex.GroupID.interpolate(properties)
+			ex.ArtifactID.interpolate(properties)
+			exclusions = append(exclusions, ex)
+		}
+		d.Exclusions = exclusions
+	}
 	return ok1 && ok2 && ok3 && ok4 && ok5 && ok6 && ok7
 }
 
